@@ -195,6 +195,15 @@ class Hist(_Col):
     return canon((r.hist, r.bin_edges))
 
 
+class HistWeighted(Hist):
+  name = 'Histogram/weighted'
+  # rows are (value, weight); signed weights: a batch whose weights cancel is still a batch
+  pools = [[(0.5, 1.0), (1.5, -1.0), (2.5, 0.5), (3.5, 2.0)], [(0.5, 2.0), (0.5, -2.0), (1.5, 1.0), (1.5, -1.0)]]
+
+  def batch_args(self, rows):
+    return (np.array([r[0] for r in rows], dtype=float), np.array([r[1] for r in rows], dtype=float))
+
+
 class HistEdges(Hist):
   name = 'Histogram/edges'
 
@@ -699,6 +708,20 @@ class TopKRet135(TopKRet):
   k_list = [1, 3, 5]
 
 
+class TopKRetOneMetric(TopKRet):
+  name = 'TopKRetrieval/one-metric-as-a-string'
+  pools = [[(['a'], ['a', 'b']), (['b'], ['a', 'b']), (['c'], ['c', 'a']), (['a'], ['b', 'c'])]]      # equal lengths: no k truncation
+  k_list = [1, 2]
+
+  def fresh(self):
+    from ml_metrics._src.aggregates import retrieval
+    return retrieval.TopKRetrieval(metrics='precision', k_list=self.k_list)
+
+  def example_values(self, out, n):
+    out = out if isinstance(out, dict) else {'precision': out}
+    return [canon({k: np.asarray(v)[i] for k, v in out.items()}) for i in range(n)]
+
+
 class TopKRetMulticlass(TopKRet):
   name = 'TopKRetrieval/multiclass-equal-lengths'
   pools = [[(['a'], ['a', 'b']), (['b'], ['a', 'b']), (['c'], ['c', 'a']), (['a'], ['b', 'c'])]]
@@ -772,9 +795,9 @@ def all_adapters():
 
 
 def _direct_adapters():
-  return [Mean1D(), Mean2D(), Mean2DMixed(), MeanVar1D(), MeanVar2D(), MeanVar2DMixed(), Var1D(), Hist(), HistEdges(), CounterA(), MinMax(), MinMaxAxis(), ValueAcc(), ValueAccPlain(),
+  return [Mean1D(), Mean2D(), Mean2DMixed(), MeanVar1D(), MeanVar2D(), MeanVar2DMixed(), Var1D(), Hist(), HistWeighted(), HistEdges(), CounterA(), MinMax(), MinMaxAxis(), ValueAcc(), ValueAccPlain(),
           ValueAccMetric(), Unbounded(), UnboundedSingle(), Reservoir(), Reservoir3(), R2(), R2Rel(), RReg(), RRegNC(),
           RRegMulti(), RRegMultiMixed(), SPD(), MeanStateA(), MeanStateArr(), TupleMean(), NGrams(), NGrams2(), NGramsFirst(), Patterns(),
           PatternsNoDup(), CMBinary(), CMBinaryStr(), CMMultiMicro(), CMMultiMicroNoVocab(), CMMultiMacro(), CMMultiOut(), CMIndicator(), CMTopK(),
           ClassificationAgg(), Samplewise(), SamplewiseIndicator(), CalibHist(), TopKRet(), TopKRet1(), TopKRet13(),
-          TopKRet135(), TopKRetMulticlass(), Thresholded()]
+          TopKRet135(), TopKRetOneMetric(), TopKRetMulticlass(), Thresholded()]
